@@ -33,11 +33,24 @@ type treeCase struct {
 	NotContains string `json:"not_contains,omitempty"`
 	MustContain string `json:"must_contain,omitempty"`
 	Note        string `json:"note,omitempty"`
+	// Linked: names whose file in the template directory is a symbolic link to a regular file kept elsewhere
+	Linked []string `json:"linked,omitempty"`
 }
 
 func (cs treeCase) tree() tree.Tree {
 	t := tree.Tree{}
+	linked := map[string]bool{}
+	for _, n := range cs.Linked {
+		linked[n] = true
+	}
 	for name, src := range cs.Files {
+		if linked[name] {
+			// a symbolic link to a regular file is a template file like any other
+			flat := "shared/" + strings.ReplaceAll(name, "/", "_") + ".src"
+			t[flat] = tree.Entry{Content: src}
+			t[cs.Dir+"/"+name+cs.Ext] = tree.Entry{Kind: tree.Symlink, Content: strings.Repeat("../", strings.Count(cs.Dir+"/"+name, "/")) + flat}
+			continue
+		}
 		t[cs.Dir+"/"+name+cs.Ext] = tree.Entry{Content: src}
 	}
 	return t
